@@ -286,4 +286,193 @@ theorem holds_partial (ops : List COp) (hp : AllCPre St.server ops) (hn : NoPadO
   rw [e1, e2, e3] at h
   omega
 
+/-! ## Wire monitor soundness -/
+
+/-- Bytes received from address `a` in a trace (specification-level sum, independent of the monitor). -/
+def recvOf (a : Nat) : List Ev → Int
+  | [] => 0
+  | .recv b n _ _ :: t => (if b = a then n else 0) + recvOf a t
+  | _ :: t => recvOf a t
+
+/-- Bytes sent to address `a` in a trace. -/
+def sentOf (a : Nat) : List Ev → Int
+  | [] => 0
+  | .send b n _ _ :: t => (if b = a then n else 0) + sentOf a t
+  | _ :: t => sentOf a t
+
+/-- Some datagram from `a` carried a genuine Handshake packet. -/
+def hsOf (a : Nat) : List Ev → Bool
+  | [] => false
+  | .recv b _ _ h :: t => (decide (b = a) && h) || hsOf a t
+  | _ :: t => hsOf a t
+
+/-- The monitor's invariant. -/
+def Inv (m : Mon) : Prop := ∀ a, m.validated a = false → m.sent a ≤ 3 * m.recvd a + m.over a
+
+theorem inv_init : Inv Mon.init := by intro a _; simp [Mon.init]
+
+set_option linter.unusedSimpArgs false in
+private theorem mstep_facts (m m' : Mon) (e : Ev) (h : mstep m e = .ok m') (a : Nat) :
+    m'.sent a = m.sent a + sentOf a [e] ∧ m'.recvd a = m.recvd a + recvOf a [e] ∧
+    m.over a ≤ m'.over a ∧ m'.hs a = (m.hs a || hsOf a [e]) ∧
+    (m'.validated a = true → m.validated a = true ∨ m'.hs a = true) ∧
+    (Inv m → m'.validated a = false → m'.sent a ≤ 3 * m'.recvd a + m'.over a) := by
+  cases e with
+  | recv b n r hs =>
+    simp only [mstep] at h
+    split at h
+    · cases h
+    · rename_i hn
+      cases r <;> simp only at h
+      all_goals (repeat' split at h)
+      all_goals (try cases h)
+      all_goals (simp only [bump, setB, sentOf, recvOf, hsOf, Inv, knownOvershoot, Bool.and_eq_true, decide_eq_true_eq] at *; grind)
+  | send b n byConn c =>
+    simp only [mstep] at h
+    repeat' split at h
+    all_goals (try cases h)
+    all_goals (simp only [bump, setB, sentOf, recvOf, hsOf, Inv, knownOvershoot, Bool.and_eq_true, decide_eq_true_eq] at *; grind)
+  | validated =>
+    simp only [mstep] at h
+    repeat' split at h
+    all_goals (try cases h)
+    all_goals (simp only [bump, setB, sentOf, recvOf, hsOf, Inv, knownOvershoot, Bool.and_eq_true, decide_eq_true_eq] at *; grind)
+  | cred c =>
+    simp only [mstep] at h
+    repeat' split at h
+    all_goals (try cases h)
+    all_goals (simp only [bump, setB, sentOf, recvOf, hsOf, Inv, knownOvershoot, Bool.and_eq_true, decide_eq_true_eq] at *; grind)
+
+private theorem sentOf_cons (a : Nat) (e : Ev) (t : List Ev) : sentOf a (e :: t) = sentOf a [e] + sentOf a t := by
+  cases e <;> simp [sentOf]
+
+private theorem recvOf_cons (a : Nat) (e : Ev) (t : List Ev) : recvOf a (e :: t) = recvOf a [e] + recvOf a t := by
+  cases e <;> simp [recvOf]
+
+private theorem hsOf_cons (a : Nat) (e : Ev) (t : List Ev) : hsOf a (e :: t) = (hsOf a [e] || hsOf a t) := by
+  cases e <;> simp [hsOf]
+
+/-- Validation was legitimate: the address had sent a genuine Handshake packet. -/
+def Legit (m : Mon) : Prop := ∀ a, m.validated a = true → m.hs a = true
+
+/-- Everything the monitor's state says after an accepted trace, in terms of the trace itself. -/
+theorem mrun_facts (evs : List Ev) : ∀ m m', mrun m evs = .ok m' → Inv m → Legit m →
+    Inv m' ∧ Legit m' ∧ ∀ a, m'.sent a = m.sent a + sentOf a evs ∧ m'.recvd a = m.recvd a + recvOf a evs ∧
+      m.over a ≤ m'.over a ∧ m'.hs a = (m.hs a || hsOf a evs) := by
+  induction evs with
+  | nil =>
+    intro m m' h hi hl
+    simp only [mrun] at h; cases h
+    exact ⟨hi, hl, fun a => by simp [sentOf, recvOf, hsOf]⟩
+  | cons e t ih =>
+    intro m m' h hi hl
+    simp only [mrun] at h
+    split at h
+    · rename_i m1 h1
+      have f := mstep_facts m m1 e h1
+      have hi1 : Inv m1 := fun a hv => (f a).2.2.2.2.2 hi hv
+      have hl1 : Legit m1 := by
+        intro a hv
+        rcases (f a).2.2.2.2.1 hv with h0 | h0
+        · rw [(f a).2.2.2.1, hl a h0]; rfl
+        · exact h0
+      obtain ⟨hi', hl', g⟩ := ih m1 m' h hi1 hl1
+      refine ⟨hi', hl', fun a => ?_⟩
+      obtain ⟨g1, g2, g3, g4⟩ := g a
+      obtain ⟨f1, f2, f3, f4, _, _⟩ := f a
+      rw [sentOf_cons, recvOf_cons, hsOf_cons]
+      refine ⟨by omega, by omega, by omega, ?_⟩
+      rw [g4, f4, Bool.or_assoc]
+    · cases h
+
+/-- Soundness of the monitor (V-tie): in an accepted trace, every address that has not been validated
+has been sent at most three times what was received from it, plus the known-defect allowance the
+monitor reported separately (`over`, zero unless a padded Initial exceeded the credit). -/
+theorem monitor_sound (evs : List Ev) (m : Mon) (h : mrun Mon.init evs = .ok m) (a : Nat)
+    (hv : m.validated a = false) : sentOf a evs ≤ 3 * recvOf a evs + m.over a := by
+  obtain ⟨hi, _, g⟩ := mrun_facts evs _ _ h inv_init (by intro a h; simp [Mon.init] at h)
+  have := hi a hv
+  obtain ⟨g1, g2, _, _⟩ := g a
+  simp only [Mon.init] at g1 g2
+  omega
+
+/-- Validation is only accepted after a genuine Handshake packet from that address. -/
+theorem validated_legit (evs : List Ev) (m : Mon) (h : mrun Mon.init evs = .ok m) (a : Nat)
+    (hv : m.validated a = true) : hsOf a evs = true := by
+  obtain ⟨_, hl, g⟩ := mrun_facts evs _ _ h inv_init (by intro a h; simp [Mon.init] at h)
+  have := hl a hv
+  rw [(g a).2.2.2] at this
+  simpa [Mon.init] using this
+
+/-- Acceptance is prefix-closed, so the property holds at every point of the trace. -/
+theorem mrun_append (p q : List Ev) : ∀ m m', mrun m (p ++ q) = .ok m' →
+    ∃ mp, mrun m p = .ok mp ∧ mrun mp q = .ok m' := by
+  induction p with
+  | nil => intro m m' h; exact ⟨m, rfl, h⟩
+  | cons e t ih =>
+    intro m m' h
+    simp only [List.cons_append, mrun] at h ⊢
+    split at h
+    · rename_i m1 h1
+      exact ih m1 m' h
+    · cases h
+
+/-- The property itself on accepted traces: if the monitor accepts a trace and reports no known-defect
+overshoot for address `a`, then at EVERY prefix at which `a` is not yet validated,
+`Σ sent to a ≤ 3 · Σ received from a`. -/
+theorem accepted_trace_property (p q : List Ev) (m : Mon) (h : mrun Mon.init (p ++ q) = .ok m) (a : Nat)
+    (ho : m.over a = 0) :
+    ∃ mp, mrun Mon.init p = .ok mp ∧ (mp.validated a = false → sentOf a p ≤ 3 * recvOf a p) := by
+  obtain ⟨mp, h1, h2⟩ := mrun_append p q _ _ h
+  refine ⟨mp, h1, fun hv => ?_⟩
+  have s := monitor_sound p mp h1 a hv
+  obtain ⟨hi, hl, _⟩ := mrun_facts p _ _ h1 inv_init (by intro a h; simp [Mon.init] at h)
+  obtain ⟨_, _, g⟩ := mrun_facts q _ _ h2 hi hl
+  have g3 := (g a).2.2.1
+  obtain ⟨_, _, g0⟩ := mrun_facts p _ _ h1 inv_init (by intro a h; simp [Mon.init] at h)
+  have g03 := (g0 a).2.2.1
+  simp only [Mon.init] at g03
+  omega
+
+/-- The monitor's credit bookkeeping is the counter model: an accepted connection send within the
+precondition leaves exactly `credit - n`. -/
+theorem monitor_send_exact (m m' : Mon) (a : Nat) (n c : Int) (h : mstep m (.send a n true c) = .ok m')
+    (hu : m.credit ≠ unlimited) (hp : n ≤ maxSendSize m.credit maxDatagramSize) :
+    m'.credit = m.credit - n ∧ c = m.credit - n := by
+  have hn : ¬ n < 0 := by intro hn; simp [mstep, hn] at h
+  have hps : packetSent m.credit n = m.credit - n := by
+    simp only [packetSent, hu, ne_eq, not_false_eq_true, if_true, maxSendSize] at *; omega
+  simp only [mstep] at h
+  repeat' split at h
+  all_goals (try cases h)
+  all_goals grind
+
+/-! ## Non-vacuity -/
+
+instance (s : St) (op : Op) : Decidable (Pre s op) := by cases op <;> unfold Pre <;> infer_instance
+instance : (s : St) → (ops : List Op) → Decidable (AllPre s ops)
+  | _, [] => .isTrue trivial
+  | s, op :: rest => by
+    unfold AllPre
+    have := instDecidableAllPre (step s op) rest
+    infer_instance
+instance : (s : St) → (ops : List COp) → Decidable (NoPadOvershoot s ops)
+  | _, [] => .isTrue trivial
+  | s, op :: rest => by
+    unfold NoPadOvershoot
+    have := instDecidableNoPadOvershoot (cstep s op) rest
+    infer_instance
+
+example : AllPre St.server [.recv 1250, .send 1200, .send 1200, .send 1200, .send 150] ∧
+    NoValidate [.recv 1250, .send 1200, .send 1200, .send 1200, .send 150] := by decide
+example : AllCPre St.server witness ∧ NoValidateC witness ∧ 3 * crecvTotal witness < unlimited := by decide
+example : AllCPre St.server [.recv 1200, .csend 1200 true, .csend 1200 true, .csend 1200 true] ∧
+    NoPadOvershoot St.server [.recv 1200, .csend 1200 true, .csend 1200 true, .csend 1200 true] := by
+  decide
+/-- The witness trace of the real code (corpus/C27) is accepted with a non-zero allowance. -/
+example : (match mrun Mon.init [.recv 0 1250 .new false, .send 0 1200 true 2550, .send 0 1200 true 1350,
+    .send 0 1200 true 150, .send 0 1200 true 0] with | .ok m => m.over 0 | .error _ => -1) = 1050 := by decide
+example : (match mrun Mon.init [.recv 0 1200 .new false, .send 0 1200 true 2400, .send 0 1201 true 1199] with
+    | .ok _ => "ok" | .error e => e) = "send-exceeds-credit" := by decide
+
 end NetVerif.Proofs.C27
